@@ -473,5 +473,11 @@ _amend("C13", "text", "(R13.1-R13.9, DESIGN.md §4 C13;", "(R13.1-R13.10, DESIGN
 _amend("C14", "text", "DESIGN.md §4 C14", "DESIGN.md §4 C14; R14.9: the command minifier probes its writer")
 _amend("C19", "text", "(R19.1-R19.25, DESIGN.md §4 C19;", "(R19.1-R19.26, DESIGN.md §4 C19; R19.26: no loop over a map reads a map it assigns to;")
 
+_amend("C01", "text", "(R01.1-R01.53;", "(R01.1-R01.55; R01.54: the preceding expression statement moves only into a head that is evaluated first, once, in the list's scope (reference table), R01.55: the truth of a negated number is decided by isFalsy;")
+_amend("C01", "text", "Decides fifty-three structural", "Decides fifty-five structural")
+_amend("C03", "text", "Decides twenty-four local clauses (R03.1-R03.24;", "Decides twenty-six local clauses (R03.1-R03.26; R03.25: every decoder call hands over a reverse map with the bytes the parser normalises (CR), R03.26: a comment dropped behind the pre start tag does not hand its newline to the first-newline rule;")
+_amend("C04", "text", "R04.31: the properties of one case clause", "R04.32: the property tests of minifyTokens see the name behind a vendor prefix; R04.31: the properties of one case clause")
+_amend("C09", "text", "R09.29 = R01.38 —", "R09.29 = R01.38, R09.30: the parentheses around the identifiers let and async stay —")
+
 if __name__ == "__main__":
     main()
